@@ -5,9 +5,9 @@ def run(tier, seed):
     return cc.run_check("C12", tier, seed,
         mc_cfgs=(["ChanMC_c10.cfg"], ["ChanMC_c10.cfg", "ChanMC_c10t.cfg"]),
         profiles=[("reload", 2, 250), ("reload", 3, 80), ("async", 2, 60)],
-        thorough_profiles=[("reload", 2, 4000), ("reload", 3, 1500), ("async", 2, 1000)],
+        thorough_profiles=[("reload", 2, 2000), ("reload", 3, 700), ("async", 2, 500)],
         mc_actions=("MAdd", "MSendCS", "MSendRAA", "MDeliver", "MSave", "MCrash"),
-        families=[("feecross", 300), ("chainsettle", 60)], thorough_families=[("feecross", 6000), ("chainsettle", 400)],
+        families=[("feecross", 300), ("chainsettle", 60)], thorough_families=[("feecross", 3000), ("chainsettle", 300)],
         assumptions=cc.COMMON_ASSUMPTIONS + [
             "ChannelMonitor and ChannelMonitorUpdate are compared with the library's own ==; the ChannelManager by "
             "its public projection and by continuing the run on the re-read copy (every later event must still be a "
